@@ -1,6 +1,38 @@
 import os, json, struct
 from engine import Query
-META = {}
+META = {
+ 'functions': ['Value<char> (Value.hpp) - constructors 58-201 (all but the ObjectT/ArrayT default-constructed-argument forms), operator= 203-412 (every overload), SetPointerToValue / AddPointerToValue, '
+               'operator+= 414-535 (every overload), operator[] 543-611 (key: 4 overloads, index: SizeT + template), Get, Insert, Merge 876-918, observers 920-1505 '
+               '(Is*, GetNumberType, Size, GetValue(index|key|view), First, Last, GetKey, GetObject, GetArray, GetString, GetStringView, StringStorage, Length, SetKeyCharAndLength, '
+               'SetValueKeyLength, SetValueAndKey, SetCharAndLength), typed getters / coercions 1588-1751 (GetUInt64, GetInt64, GetDouble, GetNumber, SetNumber, SetBool), '
+               'Remove (3 overloads), RemoveIndex (2), Reset, Compress 1753-1843, copy / move construction and assignment, reset / copyValue 2169-2215, ~Value',
+               'Array<Value> (Array.hpp), HArray<String,Value> / HashTable (HArray.hpp, HashTable.hpp: Get, operator[], Insert, find, insert, remove, resize, expand, copyTable, generateHash, '
+               'Compress, operator+= copy and move), String<char>, StringUtils::Hash/Count/IsEqual, Memory::Copy/Dispose/Initialize as reached from the above',
+               'Digit::stringToNumber with its power kernels (coercion queries only, concrete texts)'],
+ 'bounds': 'one inductive step (DESIGN 4.1, constructed pre-states): pre-state class x operation x second-operand class, all concrete per query; payloads symbolic (64-bit numbers incl. every double '
+           'bit pattern, string units over all values, which overload of a family where that does not move storage). Pre-state classes: Undefined, Null, True, False, UInt, Int, Double, '
+           'String of 0..2 units, Array of 0..2 members (scalar / Undefined (hole) / String members), Object of 0..2 members under keys from {"", "a", "b", "ab"} (scalar / String / '
+           'never-written / removed members, 4 ways to build), pointer to scalar / String / Array / Object; every value is constructed by the public constructors inside storage with '
+           'arbitrary previous contents. Operations: see OP_* in harness/C12_value.cpp (30 families, up to 24 variants each). After the operation EVERY observer is compared with the '
+           'document model (for objects: every member by key, absent keys, slot iteration order, positional access while no slot was removed; Size between member count and member '
+           'count + removed slots), sources of copies are re-read after the copy was mutated and released, moved-from values must be Undefined, pointer targets must be unchanged, '
+           'and every allocation must be released (memory-leak check + LeakSanitizer on replay). COERCE queries: 15 concrete texts ("0", "123", "-5", "1.5", "1e2", "true", "false", '
+           '"12a", "007", ...) with their expected reading. quick: 5 pre-state classes x representative variants (279 queries); thorough: 35 classes (2672 queries).',
+ 'outside': 'containers with more than 2 members before the operation (results have up to 4); nesting deeper than 2; keys outside the 4-key universe / longer than 2 units; histories longer than '
+            'construction + 1 operation; string -> number coercion for symbolic texts (160 s for ONE symbolic unit; C09 covers the scanner itself); GetInt64/GetUInt64 of a Double outside '
+            '(-4e18, 4e18) (the cast is undefined behaviour there - see open questions); Value::End() and Value::IsPointerToValue() (they do not compile when instantiated: Value.hpp:1277, 2117); '
+            'Sort / GroupBy (C15 part (c), C18); Stringify / CopyValueTo (C08 part); char16_t / char32_t instantiations; default-constructed EMPTY Array/HArray passed by value '
+            '(arguments are emptied containers with spare room instead)',
+ 'assumptions': ['kinds, string lengths, member counts, keys and storage-moving overload choices are enumerated across queries, not symbolic',
+                 'queries other than COERCE replace Digit::stringToNumber by a constant (it is not reachable there on a feasible path)',
+                 'the model follows the implementation where the documentation is silent: += on a value that is not an array first discards it; Merge on an Undefined value makes it an empty array '
+                 'even when nothing is merged; += of an EMPTY Array appends it as a member while a non-empty one is spliced; v[index] on an object without such a live slot discards the object; '
+                 'containers compare / report Size() including removed slots',
+                 'while C12-number-ctor-uninit is open: the storage a value is constructed in has zero bytes at offset 8..15',
+                 'while C12-assign-type-no-reset is open: operator=(ValueType) is applied to Undefined / True / False / Null values only',
+                 'while C12-setptr-null is open: SetPointerToValue(nullptr) is applied to Undefined values only',
+                 'while C12-remove-string-key is open: Remove(const String&) on an object is applied only when the key length equals the slot count'],
+}
 # known findings of this harness; with VF_KF_MANUAL=1 the defines are passed directly (for ids not yet in known_findings.json)
 KF_CTOR = 'C12-number-ctor-uninit'
 KF_TYPE = 'C12-assign-type-no-reset'
@@ -103,9 +135,9 @@ def queries(tier):
         side = ['U', 'NUL', 'D', 'O', 'O_a.X_b.UI', 'O_a.U_b.T', 'P_O_a.UI']
         srcs = ['UI', 'A_UI', 'O_a.UI']
     else:
-        plan = [(p, 2) for p in ('U', 'UI', 'D', 'S1', 'A_U_I', 'O_a.UI_b.S', 'O_a.X_b.UI', 'P_UI')] + \
-               [(p, 1) for p in ('NUL', 'T', 'I', 'S0', 'S2', 'A', 'A_UI', 'A_S', 'A_UI_I', 'A_T_S', 'O', 'O_a.UI', 'O_e.NUL_ab.D', 'O_a.UI_b.X', 'O_a.U_b.T', 'P_S1', 'P_A_UI', 'P_O_a.UI')]
-        side = ['F', 'A_U', 'A_D', 'A_U_U', 'A_UI_U', 'O_ab.S', 'O_b.T_a.F', 'P_U', 'P_D']
+        plan = [(p, 2) for p in ('UI', 'S1', 'A_U_I', 'O_a.UI_b.S', 'O_a.X_b.UI')] + \
+               [(p, 1) for p in ('U', 'NUL', 'D', 'S0', 'S2', 'A', 'A_UI', 'A_T_S', 'O', 'O_a.UI', 'O_e.NUL_ab.D', 'O_a.U_b.T', 'P_UI', 'P_A_UI', 'P_O_a.UI')]
+        side = ['T', 'F', 'I', 'A_U', 'A_S', 'A_D', 'A_U_U', 'A_UI_U', 'A_UI_I', 'O_ab.S', 'O_b.T_a.F', 'O_a.UI_b.X', 'P_U', 'P_D', 'P_S1']
         srcs = ['U', 'UI', 'S1', 'A_UI', 'A_U_I', 'O_a.UI', 'O_b.S_a.I', 'P_UI']
     for p, lvl in plan:
         ops_for(p, (lambda op, p=p, **kw: qs.append(Q(p, op, **kw))), lvl, srcs)
@@ -129,8 +161,7 @@ def queries(tier):
             qs.append(x)
     # the findings themselves
     qs.append(Q('UI', 'AP_SCALAR', SEL=3, W=0, kf_only=KF_CTOR))
-    qs.append(Q('D', 'INDEX', IDX=0, W=0, kf_only=KF_CTOR))
-    qs.append(Q('I', 'KEY', KA=1, W=0, kf_only=KF_CTOR))
+    qs.append(Q('D', 'AP_STR', LEN_A=1, W=0, kf_only=KF_CTOR))
     qs.append(Q('S1', 'AS_TYPE', SEL=10, kf_only=KF_TYPE))
     qs.append(Q('UI', 'AS_TYPE', SEL=3, kf_only=KF_TYPE))
     qs.append(Q('UI', 'SET_PTR', src='UI', SEL=1, kf_only=KF_NULLP))
